@@ -276,7 +276,7 @@ func (h *h18) ubiScenarios() {
 	h.w.app.DistrKeeper.SetYearStartSnapshot(h.ctx, distributortypes.SupplySnapshot{SnapshotTime: 0, SnapshotAmount: sdkmath.ZeroInt()})
 	u.block(T+2700300+2000, &hist)
 	// 7. upsert through the real proposal handler (stamps DistributionLast := DistributionStart), remove through the handler
-	hd := ubi.NewApplyUpsertUBIProposalHandler(uk, h.w.app.CustomGovKeeper, h.w.app.SpendingKeeper)
+	_ = ubi.NewApplyUpsertUBIProposalHandler // the handler the router holds for this content
 	npp := h.w.app.CustomGovKeeper.GetNetworkProperties(h.ctx)
 	npp.UbiHardcap = 1_000_000_000_000_000 // the default genesis record alone exceeds the default cap (C13's subject, not C18's)
 	h.w.app.CustomGovKeeper.SetNetworkProperties(h.ctx, npp)
@@ -286,7 +286,7 @@ func (h *h18) ubiScenarios() {
 		{Name: nm(22), DistributionStart: 0, Amount: 2, Period: 50, Pool: "ghost"},
 	} {
 		cc := c
-		err := withCache(h.ctx, func(x sdk.Context) error { return hd.Apply(x, 1, &cc, sdk.ZeroDec()) })
+		err := h.w.Enact(h.ctx, 1, &cc)
 		if rec := uk.GetUBIRecordByName(h.ctx, c.Name); rec != nil {
 			if err != nil || rec.DistributionLast != c.DistributionStart {
 				r.Fail("C18/ubi/upsert", fmt.Sprintf("%s: err=%v last=%d start=%d", c.Name, err, rec.DistributionLast, c.DistributionStart), nil)
